@@ -13,6 +13,8 @@ test-suite on a fully rewritten tree (tools/equiv_fuzz.py --validate).
   swap        two adjacent, mutually independent simple assignments are exchanged
   negate      a - b → a + (-b)
   keywords    positional arguments of calls to module-level repo functions become keywords
+  noise       an unused module-level helper is appended, an unused local is set at the top of a function, an unused keyword-only
+              parameter with a default is added to an undecorated module-level function
   ifexp       `if c: x = A else: x = B` ↔ `x = A if c else B`;  `if c: return A` + `return B` ↔ `return A if c else B`
 """
 from __future__ import annotations
@@ -23,7 +25,7 @@ import copy
 import random
 
 SEQ_CALLS = {'tuple', 'list', 'str', 'sorted', 'dict', 'set', 'repr'}
-KINDS = ('commute', 'rename', 'hoist', 'swap', 'negate', 'keywords', 'ifexp')
+KINDS = ('commute', 'rename', 'hoist', 'swap', 'negate', 'keywords', 'ifexp', 'noise')
 
 
 def _sequence_evident(n):
@@ -336,6 +338,14 @@ class Rewriter:
   def rewrite_function(self, fn, taken):
     scope = _Scope(fn)
     fn.body = self.rewrite_block(fn.body, scope, taken)
+    if 'noise' in self.kinds and self.flip(self.p / 2):
+      self.fresh += 1
+      name = f'_noise_{self.fresh}'
+      if name not in taken:
+        taken.add(name)
+        at = 1 if fn.body and isinstance(fn.body[0], ast.Expr) and isinstance(getattr(fn.body[0], 'value', None), ast.Constant) and isinstance(fn.body[0].value.value, str) else 0
+        fn.body.insert(at, ast.Assign(targets=[ast.Name(id=name, ctx=ast.Store())], value=ast.Constant(value=0), lineno=fn.lineno))
+        self.log.append('noise-local')
     if 'rename' in self.kinds:
       scope = _Scope(fn)
       cands = sorted(n for n in scope.own if n not in scope.params and n not in scope.nested and n not in scope.declared and not n.startswith('_hoisted_') and n != '_')
@@ -374,6 +384,15 @@ def rewrite_source(src, seed, kinds=KINDS, p=0.35, signatures=None, own_module=N
   rw = Rewriter(seed, kinds, p, sigs)
   taken = _module_names(tree)
   tree.body = rw.rewrite_block(tree.body, None, taken)
+  if 'noise' in rw.kinds:
+    for st in tree.body:
+      if isinstance(st, ast.FunctionDef) and not st.decorator_list and st.args.kwarg is None and rw.flip(rw.p / 3) and '_unused_option' not in taken:
+        st.args.kwonlyargs.append(ast.arg(arg='_unused_option'))
+        st.args.kw_defaults.append(ast.Constant(value=None))
+        rw.log.append('noise-param')
+    if rw.flip() and '_unused_fuzz_helper' not in taken:
+      tree.body.append(ast.parse('def _unused_fuzz_helper(x, scale=1.0):\n  """Not used anywhere."""\n  y = x * scale\n  return y + 0\n').body[0])
+      rw.log.append('noise-helper')
   ast.fix_missing_locations(tree)
   out = ast.unparse(tree) + '\n'
   compile(out, '<variant>', 'exec')
